@@ -84,7 +84,197 @@ func (s *sliceReadSeeker) Read(p []byte) (int, error) {
 }
 func (s *sliceReadSeeker) Seek(o int64, w int) (int64, error) { return s.r.Seek(o, w) }
 
+// runC09Docker: importing a Docker-format archive (as written by docker save before the OCI layout was added to
+// it: manifest.json, <config>.json, <layer-id>/layer.tar) yields an image whose config and uncompressed layers
+// equal the archive's. The archive holds one to three images (sharing a layer or not), layers stored plain or
+// gzip-compressed, duplicate layers expressed as symlinks, entries in a tape-chosen order, the whole archive
+// optionally gzip-compressed; the image is selected by one of its names or not at all (first image).
+func runC09Docker(e *core.Env) {
+	ctx := context.Background()
+	w := newWorld(e)
+	g := gen.New(e.Tape)
+	nImg := 1 + e.Choose("gen", 3, "dimages")
+	layerGz := e.Choose("gen", 2, "dlayergz") == 1
+	shareBase := e.Choose("gen", 2, "dshare") == 1
+	linkKind := e.Choose("gen", 4, "dsymlink") // 2: repeated layers as symlinks, 3: as hardlinks
+	symlinks := linkKind >= 2
+	type dimg struct {
+		res  *gen.RealResult
+		tags []string
+		lids []string
+	}
+	var imgs []*dimg
+	var base *gen.RealResult
+	if shareBase {
+		base = g.RealImageSpec(gen.RealSpec{Docker: true, Comp: "none", MinOwn: 1})
+	}
+	var ents []tarEntry
+	addFile := func(name string, data []byte) {
+		ents = append(ents, tarEntry{hdr: tar.Header{Name: name, Typeflag: tar.TypeReg, Mode: 0o644, Size: int64(len(data))}, data: data})
+	}
+	type dman struct {
+		Config   string
+		RepoTags []string
+		Layers   []string
+	}
+	var mans []dman
+	written := map[string]string{} // layer diff id -> path of its layer.tar
+	for i := 0; i < nImg; i++ {
+		sp := gen.RealSpec{Docker: true, Comp: "none", MinOwn: 1, Base: base}
+		r := g.RealImageSpec(sp)
+		im := &dimg{res: r, tags: []string{fmt.Sprintf("example.org/app%d:v%d", i, i+1)}}
+		if e.Choose("gen", 3, "dtwotags") == 2 {
+			im.tags = append(im.tags, fmt.Sprintf("example.org/app%d:latest", i))
+		}
+		cfg := r.Node.Blobs[0]
+		cfgName := strings.TrimPrefix(cfg.Desc.Digest, "sha256:") + ".json"
+		addFile(cfgName, cfg.Data)
+		m := dman{Config: cfgName, RepoTags: im.tags}
+		for k, l := range r.Layers {
+			diff := r.DiffIDs[k]
+			lid := fmt.Sprintf("%064x", i*100+k+1)
+			path := lid + "/layer.tar"
+			if prev, ok := written[diff]; ok {
+				if symlinks {
+					// docker save wrote a repeated layer as a symlink to its first copy
+					ents = append(ents, tarEntry{hdr: tar.Header{Name: lid + "/", Typeflag: tar.TypeDir, Mode: 0o755}})
+					if linkKind == 2 {
+						ents = append(ents, tarEntry{hdr: tar.Header{Name: path, Typeflag: tar.TypeSymlink, Linkname: "../" + prev, Mode: 0o777}})
+						e.Probe("docker-archive-symlinked-layer")
+					} else {
+						// (the name a hardlink entry carries is relative to the root of the archive)
+						ents = append(ents, tarEntry{hdr: tar.Header{Name: path, Typeflag: tar.TypeLink, Linkname: prev, Mode: 0o644}})
+						e.Probe("docker-archive-hardlinked-layer")
+					}
+				} else {
+					path = prev
+					e.Probe("docker-archive-shared-layer-path")
+				}
+			} else {
+				data := l.Tar
+				if layerGz {
+					var zb bytes.Buffer
+					zw := gzip.NewWriter(&zb)
+					_, _ = zw.Write(data)
+					_ = zw.Close()
+					data = zb.Bytes()
+				}
+				ents = append(ents, tarEntry{hdr: tar.Header{Name: lid + "/", Typeflag: tar.TypeDir, Mode: 0o755}})
+				addFile(lid+"/VERSION", []byte("1.0"))
+				addFile(lid+"/json", []byte(`{"id":"`+lid+`"}`))
+				addFile(path, data)
+				written[diff] = path
+			}
+			m.Layers = append(m.Layers, path)
+			im.lids = append(im.lids, lid)
+		}
+		mans = append(mans, m)
+		imgs = append(imgs, im)
+	}
+	mb, _ := json.Marshal(mans)
+	addFile("manifest.json", mb)
+	addFile("repositories", []byte("{}"))
+	shuffle := e.Choose("gen", 2, "shuffle") == 1
+	if shuffle {
+		// (a symlink may come before or after the file it names; directories are only decoration)
+		for i := len(ents) - 1; i > 0; i-- {
+			j := e.Choose("gen", i+1, "shuf")
+			ents[i], ents[j] = ents[j], ents[i]
+		}
+	}
+	arch := writeTar(ents)
+	wholeGz := e.Choose("gen", 3, "dwholegz") == 2
+	if wholeGz {
+		var zb bytes.Buffer
+		zw := gzip.NewWriter(&zb)
+		_, _ = zw.Write(arch)
+		_ = zw.Close()
+		arch = zb.Bytes()
+	}
+	sel := e.Choose("gen", nImg+1, "dselect") // nImg: no name, the first image
+	var iopts []regclient.ImageOpts
+	want := imgs[0]
+	selName := ""
+	if sel < nImg {
+		want = imgs[sel]
+		selName = want.tags[e.Choose("gen", len(want.tags), "dseltag")]
+		iopts = append(iopts, regclient.ImageWithImportName(selName))
+	}
+	tgtLayout := e.Choose("gen", 3, "tgt") == 2
+	tgt := &endpoint{}
+	if tgtLayout {
+		tgt.dir = e.TempDir()
+	} else {
+		tgt.reg, tgt.repo = w.AddReg("tgt.test"), "imported/app"
+	}
+	rc := w.Client()
+	sample := map[string]any{"mode": "docker-format archive", "images": nImg, "layers_gzip": layerGz, "shared_base_layer": shareBase, "repeated_layers_as": []string{"same path", "same path", "symlink", "hardlink"}[linkKind], "entries_shuffled": shuffle, "archive_gzip": wholeGz,
+		"selected": map[bool]string{true: "by name, image " + fmt.Sprint(sel), false: "no name (first image)"}[sel < nImg], "target": map[bool]string{true: "layout", false: "registry"}[tgtLayout]}
+	e.SetCase(fmt.Sprintf("%v|%s", sample, want.res.Node.Digest), true, sample)
+	e.Probe("docker-archive")
+	if sel > 0 && sel < nImg {
+		e.Probe("docker-archive-selected-later-image")
+	}
+	simrt.Event("ImageImport of a docker-format archive (%d images, select %q)", nImg, selName)
+	if err := rc.ImageImport(ctx, mustRef(tgt.refStr("imp")), &sliceReadSeeker{e: e, r: bytes.NewReader(arch)}, iopts...); err != nil {
+		e.Violation("import", "docker-import-failed", "importing a docker-format archive (%v) failed: %v", sample, err)
+		return
+	}
+	drainTasks(e, 10)
+	ts := tgt.store()
+	d, ok := ts.Tag("imp")
+	if !ok {
+		e.Violation("docker-import", "imported-tag-missing", "after the import of a docker-format archive the tag does not resolve")
+		return
+	}
+	raw, _, _ := ts.Manifest(d)
+	var m struct {
+		Config struct{ Digest string } `json:"config"`
+		Layers []struct {
+			Digest string
+			Size   int64
+		} `json:"layers"`
+	}
+	if err := json.Unmarshal(raw, &m); err != nil {
+		e.Violation("docker-import", "imported-manifest-invalid", "the imported manifest does not parse: %v", err)
+		return
+	}
+	cb, ok := ts.Blob(m.Config.Digest)
+	if !ok || !bytes.Equal(cb, want.res.Node.Blobs[0].Data) {
+		which := "another content"
+		for i, im := range imgs {
+			if bytes.Equal(cb, im.res.Node.Blobs[0].Data) {
+				which = fmt.Sprintf("the config of image %d of the archive", i)
+			}
+		}
+		e.Violation("docker-import", "imported-config-differs", "the imported image's config is not the selected image's (image %d, %q) config file: it is %s", sel%nImg, selName, which)
+	}
+	if len(m.Layers) != len(want.res.Layers) {
+		e.Violation("docker-import", "imported-layer-count", "the imported image has %d layers, the archive's image has %d", len(m.Layers), len(want.res.Layers))
+		return
+	}
+	for i, l := range m.Layers {
+		lb, ok := ts.Blob(l.Digest)
+		if !ok {
+			e.Violation("docker-import", "imported-layer-missing", "layer %d (%s) of the imported image is not at the target", i, short(l.Digest))
+			continue
+		}
+		if l.Size != int64(len(lb)) {
+			e.Violation("docker-import", "imported-layer-size", "layer %d: descriptor size %d, stored %d bytes", i, l.Size, len(lb))
+		}
+		ub, err := decompress(lb)
+		if err != nil || !bytes.Equal(ub, want.res.Layers[i].Tar) {
+			e.Violation("docker-import", "imported-layer-differs", "layer %d of the imported image does not decompress to the archive's layer %d (err %v, %d vs %d bytes)", i, i, err, len(ub), len(want.res.Layers[i].Tar))
+		}
+	}
+	e.Probe("docker-import-ok")
+}
+
 func runC09(e *core.Env) {
+	if e.Choose("gen", 4, "mode") == 3 {
+		runC09Docker(e)
+		return
+	}
 	ctx := context.Background()
 	w := newWorld(e)
 	g := gen.New(e.Tape)
